@@ -175,6 +175,26 @@ def _table_one(idx):
                 elif obs2[1] != want[0] or not close(obs2[2], want[1]) or not close(obs2[3], want[1] / (want[0] - 1)):
                     bad.append(("table-grid", grid, "%s via %s: table has %d rows, step %r, last %r; statement says %d rows, step %r, last %r" % (
                         lines, target, obs2[1], obs2[3], obs2[2], want[0], want[1] / (want[0] - 1), want[1]), text2))
+    # ---- Grid.tla, Files = 2: what one file resolves to does not depend on the files the process read before.  A file that
+    # gives none of the three options is also written without the [Tabulation] section / with an empty one
+    if all(inp[k] == ABSENT for k in ("nr", "dr", "cut")):
+        PAIRS = "[Pair]\nAl-Al : >=0 as.polynomial 3 1\n"
+        for earlier in ("[Tabulation]\ntarget : LAMMPS\nnr : 51\ncutoff : 5.0\n" + PAIRS, "[Tabulation]\ntarget : setfl\nnr : 11\ndr : 0.5\nnrho : 21\ncutoff_rho : 7.0\n" + MODEL):
+            for later, what in ((PAIRS, "no [Tabulation] section"), ("[Tabulation]\n" + PAIRS, "an empty [Tabulation] section"), ("[Tabulation]\ntarget : LAMMPS\n" + PAIRS, "a [Tabulation] section with the target only")):
+                try:
+                    t0 = ConfigParser(io.StringIO(earlier)).tabulation
+                    _ = (t0.nr, t0.cutoff, t0.nrho, t0.cutoff_rho)
+                    t = ConfigParser(io.StringIO(later)).tabulation
+                    got = (t.nr, t.cutoff, t.nrho, t.cutoff_rho)
+                    tab = Configuration().read(io.StringIO(later))
+                    got2 = (tab.nr, tab.cutoff)
+                except Exception as e:
+                    bad.append(("internal-exception", "r", "file with %s after another file: %s: %s" % (what, type(e).__name__, e), later))
+                    continue
+                n += 1
+                if any(g is not None for g in got) or got2 != (1001, 10.0):
+                    bad.append(("wrong-grid", "r", "a file with %s, read after a file that fixes nr / cutoff, gives %s (tabulation: nr=%s cutoff=%s); it gives no option, so the defaults nr=1001 cutoff=10.0 apply" % (
+                        what, got, got2[0], got2[1]), earlier + "\n----- then -----\n" + later))
     return dict(idx=idx, bad=bad, n=n)
 
 
@@ -229,6 +249,12 @@ def main(prop, tier, seed):
         run.notes["unrepaired_model_violates"] = res2.violated
         if res2.violated != "ImplAgrees":
             run.machinery("anti-vacuity: the transcription with Python truthiness should violate ImplAgrees, TLC says %r" % res2.violated)
+        for cfg2, want in (("Grid_twofiles.cfg", None), ("Grid_sticky.cfg", "ImplAgrees")):
+            res3 = tlc.run("Grid", cfg2, keep=False, timeout=900)
+            if res3.violated != want:
+                run.machinery("%s: expected %r, TLC says %r" % (cfg2, want, res3.violated))
+            elif want is None:
+                run.add_tlc(cfg2[:-4], res3)
         if not run.machinery_errors:
             with mp.Pool(min(16, os.cpu_count() or 1)) as pool:
                 r1 = pool.map(_table_one, range(len(_TABLE)), chunksize=4)
